@@ -418,6 +418,31 @@ func ruleScanFromFirstFile(r *Report) {
 		alias, fn, callee string
 		arg               int
 	}
+	// the file iterator used to move/copy index files starts at the first file too
+	if fi := r.need(rule, "I", "newFileIter"); fi != nil {
+		ok := false
+		for _, st := range fieldStores(fi, "fileIter.fileNum") {
+			if derives(st.Val, flowOpts{}, isFieldLoad("Header.FirstFile")) && derives(st.Val, flowOpts{}, isCallTo("index.readHeader")) {
+				ok = true
+			}
+		}
+		r.Check(ok, rule, "index.newFileIter", fi.Pos(), "file iteration starts at the header's FirstFile", "the index file iterator does not start at the header's FirstFile: after GC advanced the first file, MoveFiles finds no files (or leaves the old ones behind), so a re-bucketing installs new files in front of stale ones")
+	}
+	for _, sz := range [][2]string{{"I", "(*Index).StorageSize"}, {"M", "(*MultihashPrimary).StorageSize"}} {
+		if f := r.need(rule, sz[0], sz[1]); f != nil {
+			ok := false
+			eachInstr(f, func(in ssa.Instruction) {
+				if p, isPhi := in.(*ssa.Phi); isPhi {
+					for _, e := range p.Edges {
+						if fieldOfLoad(e) == "Header.FirstFile" {
+							ok = true
+						}
+					}
+				}
+			})
+			r.Check(ok, rule, shortFunc(f), f.Pos(), "storage size is summed from the header's FirstFile", "storage size is not summed starting at the header's FirstFile")
+		}
+	}
 	sites := []site{
 		{"I", "Open", "index.scanIndex", 2},
 		{"I", "Open", "index.findLastIndex", 1},
@@ -442,7 +467,7 @@ func ruleScanFromFirstFile(r *Report) {
 				"the starting file number is not the header's FirstFile: after GC advanced the first file the scan finds no files and silently starts an empty log")
 		}
 	}
-	r.Min(rule, 3)
+	r.Min(rule, 6)
 }
 
 // helper used by several rules: is t a pointer to / the named module type
@@ -460,6 +485,7 @@ func init() {
 		ruleTailRecovery(r)
 		ruleRescanAppliesAll(r)
 		ruleMergeFraming(r)
+		ruleSpanPair(r)
 		rulePredictOpenOnly(r)
 		ruleGoHandshake(r)
 	},
